@@ -20,16 +20,14 @@ RULE = ('cwrs: for every (N,K) of the static mode\'s pulse cache (23 band sizes 
 NOT_COVERED = [
     'the range coder itself (ec_enc_uint/ec_dec_uint, ec_encode_bin/ec_decode_bin, ec_enc_icdf/ec_dec_icdf) is property C08; '
     'here it is stubbed in the correspondence and used for real only in the witness search',
-    'the general claim "tail room >= 2 for ALL fs in (0,32736], decay in (0,11456]" behind the comment "decay is positive and at '
-    'most 11456" is searched (full sweep in the thorough tier), not proved; the theorems quantify over every (fs,decay) with '
-    'LaplaceOk, which is proved for every e_prob_model pair',
-    'the cache_caps table (rate.c:145-242) is regenerated but not recomputed by a theorem',
+    'compute_pulse_cache itself is CUSTOM_MODES-only code and is not compiled in this configuration: the theorems tie its Lean '
+    're-implementation (index, bits and caps) to the SHIPPED tables; the C function is not run',
     'SMALL_FOOTPRINT and CUSTOM_MODES variants of cwrs.c (not compiled in this configuration)',
     'ICDF tables built at run time other than the Laplace _p0 ones and the VAD/LBRR placeholder (e.g. none known)',
     'that each call site passes the ftb recorded in OpusModel/Icdf.lean is checked by a source scan (tie icdf-ftb-scan), not by the compiler',
 ]
 ASSUMPTIONS = [
-    'cwrsi is called with _i < V(_n,_k) (guaranteed by ec_dec_uint) and K <= 32767 (opus_int16 val)',
+    'cwrsi is called with _i < V(_n,_k) (guaranteed by ec_dec_uint)',
     'C unsigned/int arithmetic is modelled unbounded; cache_reachable_fits / LaplaceOk bound every intermediate below 2^32 on the stated domain',
 ]
 REQUIRED_THEOREMS = [
@@ -40,20 +38,21 @@ REQUIRED_THEOREMS = [
     'OpusProps.C17.icdf_ok', 'OpusProps.C17.icdf_tiles',
     'OpusProps.C17.eprob_pairs_ok', 'OpusProps.C17.laplace_decode_encode', 'OpusProps.C17.laplace_encode_decode',
     'OpusProps.C17.laplace_tiles', 'OpusProps.C17.laplace_p0_roundtrip', 'OpusProps.C17.laplace_p0_icdfs_ok',
+    'OpusProps.C17.laplace_domain_ok', 'OpusProps.C17.laplace_int_ranges', 'OpusProps.C17.bits2pulses_spec',
+    'OpusProps.C17.pulses2bits_cache', 'OpusProps.C17.cache_caps_recomputed', 'OpusProps.C17.cwrs_int_ranges',
+    'OpusProps.C17.cwrs_val_ranges',
 ]
-UNPROVED = [
-    'laplace_domain: LaplaceOk fs decay for ALL 0 < fs <= 32736, 0 < decay <= 11456 (the comment "decay is positive and at most '
-    '11456" in laplace.c) — proved only for the 168 e_prob_model pairs (eprob_pairs_ok); the whole domain is swept by the search',
-    'int_ranges for cwrs.c: opus_int16 val and the float accumulation of yy are modelled exactly (unbounded); K <= 32767 is assumed',
-]
+UNPROVED = []
 LEVEL_TEXT = ('full proof: U/V recurrence and symmetry; cwrsi and icwrs (transcribed loop by loop from cwrs.c, both branches and '
               'the n==2/n==1 tails) are mutually inverse bijections between K-pulse vectors and [0,V(N,K)) for ALL N>=2, K>=1; the 1272 '
               'regenerated table words equal U(N,K) and are < 2^32; every (N,K) of the static mode\'s cache has V < 2^32 and a table walk '
               'inside its rows; the shipped pulse cache equals the Lean re-implementation of compute_pulse_cache, is monotone and brackets '
               '8*log2 V; all 171 static ICDF tables of celt/ and silk/ are strictly decreasing to 0 below 2^ftb, which is proved to make the '
               'symbol intervals tile [0,2^ftb); the Laplace encoder/decoder intervals tile [0,32768) and decode inverts encode after '
-              'clamping for every (fs,decay) satisfying LaplaceOk, which holds for every e_prob_model pair; the _p0 variants round-trip and '
-              'their run-time ICDFs are exact codes')
+              'clamping for every (fs,decay) satisfying LaplaceOk, which is proved for the whole documented domain 0<fs<=32736, 0<decay<=11456 '
+              '(and checked on every e_prob_model pair); the _p0 variants round-trip and their run-time ICDFs are exact codes; bits2pulses is '
+              'characterised exactly (nearest neighbour of the budget, lower index on a tie) on every cache row, pulses2bits is monotone '
+              '(strict for N>=3); cache.caps equals its recomputation; icwrs/cwrsi/laplace intermediates stay below 2^32')
 LEVEL_NOTE = ('trusted: Lean kernel; the extractors tools/extract/CeltTables.c, SilkIcdf.c (tables go through the C compiler); the '
               'transcription of cwrs.c/laplace.c into Lean, tied by exact differential runs on the real code under ASan/UBSan with only '
               'the range-coder entry points stubbed; ftb values and table slices per call site (source scan + the tables captured at the '
